@@ -8,6 +8,7 @@ mod comp_exch;
 mod comp_perf;
 mod comp_sched;
 mod comp_server;
+mod comp_strategy;
 mod util;
 
 use serde_json::Value;
@@ -33,6 +34,7 @@ fn main() {
             "server" => comp_server::run(sc),
             "broker" => comp_broker::run(sc),
             "perf" => comp_perf::run(sc),
+            "strategy" => comp_strategy::run(sc),
             _ => panic!("unknown component {comp}"),
         });
         out.push(match r {
